@@ -54,11 +54,16 @@ fn main() {
                     _ => panic!("unknown mode"),
                 });
                 match res {
-                    Ok((reply, oracle)) => writeln!(out, "{}\t{}", reply, oracle).unwrap(),
+                    Ok((reply, oracle)) => {
+                        writeln!(out, "{}\t{}", reply, oracle).unwrap();
+                        out.flush().unwrap(); // a later request may abort the process (stack overflow)
+                    }
                     Err(e) => {
                         let msg = e.downcast_ref::<String>().cloned().or_else(|| e.downcast_ref::<&str>().map(|s| s.to_string())).unwrap_or_default();
                         let loc = LAST_PANIC.with(|p| p.borrow().clone());
-                        writeln!(out, "(panic {} {})\t(oracle fail c04.panic)", quote(&loc), quote(&msg.chars().take(160).collect::<String>())).unwrap()
+                        let site = loc.rsplit('/').next().unwrap_or("").to_string();
+                        writeln!(out, "(panic {} {})\t(oracle fail c04.panic@{})", quote(&loc), quote(&msg.chars().take(160).collect::<String>()), site).unwrap();
+                        out.flush().unwrap();
                     }
                 }
             }
